@@ -698,14 +698,16 @@ func checkEpochPairing(p *core.Prog, r *core.Report, ds *core.Describer, rule st
 }
 
 
-// checkSkipConditions: in the loop around the scheduling call, every branch that decides whether the call
-// is reached in this iteration is of one of the kinds the property allows: a presence flag of a lookup, a
-// nil/err test, an emptiness test, the IsAggregator flag, or "the attestation's slot is before the current
-// slot" (strictly). Anything else (for instance wall-clock comparisons finer than the slot) withholds the
-// job from a selected aggregator.
-func checkSkipConditions(p *core.Prog, r *core.Report, ds *core.Describer, f *ssa.Function, sched ssa.Instruction) {
-	sb := sched.Block()
-	// innermost loop header around the call
+// skipCond is a branch, inside the innermost loop around a target instruction, that decides whether the target
+// is reached in the current iteration.
+type skipCond struct {
+	If   *ssa.If
+	Kind string // "", "presence flag", "presence flag of a local set", "aggregator flag", "nil test", "emptiness test", "slot before current slot", "slot-vs-current:<rel>"
+}
+
+// skipConditions classifies the deciding branches of the loop iteration around target.
+func skipConditions(ds *core.Describer, f *ssa.Function, target ssa.Instruction) []skipCond {
+	sb := target.Block()
 	var header *ssa.BasicBlock
 	for _, h := range f.Blocks {
 		if !h.Dominates(sb) {
@@ -722,9 +724,8 @@ func checkSkipConditions(p *core.Prog, r *core.Report, ds *core.Describer, f *ss
 		}
 	}
 	if header == nil {
-		return
+		return nil
 	}
-	// blocks from which the call is reached without passing the header again
 	reach := map[*ssa.BasicBlock]bool{sb: true}
 	for changed := true; changed; {
 		changed = false
@@ -740,31 +741,35 @@ func checkSkipConditions(p *core.Prog, r *core.Report, ds *core.Describer, f *ss
 			}
 		}
 	}
-	n := 0
+	var out []skipCond
 	for _, b := range f.Blocks {
 		if !header.Dominates(b) || b == header || len(b.Instrs) == 0 {
 			continue
 		}
 		ifi, ok := b.Instrs[len(b.Instrs)-1].(*ssa.If)
-		if !ok || !reach[b] && b != sb {
+		if !ok || !reach[b] {
 			continue
 		}
 		r0, r1 := reach[b.Succs[0]] && b.Succs[0] != header, reach[b.Succs[1]] && b.Succs[1] != header
-		if b.Dominates(sb) == false || r0 == r1 {
+		if !b.Dominates(sb) || r0 == r1 {
 			continue
 		}
 		skipEdge := 0
 		if r0 {
 			skipEdge = 1
 		}
-		n++
 		c := core.DecodeCond(ds, ifi)
 		kind := ""
 		switch {
 		case c.B != nil && c.B.Val != nil:
 			if ex, ok := c.B.Val.(*ssa.Extract); ok {
-				switch ex.Tuple.(type) {
-				case *ssa.Lookup, *ssa.TypeAssert:
+				switch t := ex.Tuple.(type) {
+				case *ssa.Lookup:
+					kind = "presence flag"
+					if _, local := t.X.(*ssa.MakeMap); local {
+						kind = "presence flag of a local set"
+					}
+				case *ssa.TypeAssert:
 					kind = "presence flag"
 				}
 			}
@@ -791,13 +796,30 @@ func checkSkipConditions(p *core.Prog, r *core.Report, ds *core.Describer, f *ss
 				if rel == "<" {
 					kind = "slot before current slot"
 				} else {
-					kind = ""
-					r.Violate("C14.d", fmt.Sprintf("%s|skip-condition#%d", core.FnKey(f), n), p.Pos(core.IfPos(ifi)), "the aggregation job is withheld when the attestation's slot is '"+rel+"' the current slot, expected only '<' (past slots)")
-					continue
+					kind = "slot-vs-current:" + rel
 				}
 			}
 		}
-		r.Check(kind != "", "C14.d", fmt.Sprintf("%s|skip-condition#%d", core.FnKey(f), n), p.Pos(core.IfPos(ifi)), "the job can be withheld here only on a "+kind,
+		out = append(out, skipCond{ifi, kind})
+	}
+	return out
+}
+
+// checkSkipConditions: in the loop around the scheduling call, every branch that decides whether the call
+// is reached in this iteration is of one of the kinds the property allows: a presence flag of a lookup, a
+// nil/err test, an emptiness test, the IsAggregator flag, or "the attestation's slot is before the current
+// slot" (strictly). Anything else (for instance wall-clock comparisons finer than the slot) withholds the
+// job from a selected aggregator.
+func checkSkipConditions(p *core.Prog, r *core.Report, ds *core.Describer, f *ssa.Function, sched ssa.Instruction) {
+	n := 0
+	for _, sc := range skipConditions(ds, f, sched) {
+		n++
+		key := fmt.Sprintf("%s|skip-condition#%d", core.FnKey(f), n)
+		if strings.HasPrefix(sc.Kind, "slot-vs-current:") {
+			r.Violate("C14.d", key, p.Pos(core.IfPos(sc.If)), "the aggregation job is withheld when the attestation's slot is '"+strings.TrimPrefix(sc.Kind, "slot-vs-current:")+"' the current slot, expected only '<' (past slots)")
+			continue
+		}
+		r.Check(sc.Kind != "", "C14.d", key, p.Pos(core.IfPos(sc.If)), "the job can be withheld here only on a "+sc.Kind,
 			"an attestation's aggregation job can be withheld on a condition that is none of: lookup presence, nil/error, emptiness, IsAggregator, slot < current slot (e.g. a wall-clock comparison inside the slot): a selected aggregator of the slot gets no aggregation job")
 	}
 	r.Floor("C14.d conditions deciding whether the aggregation job is set up", n, 4)
